@@ -24,27 +24,55 @@
 (* changing entries; RequireInvalidate = TRUE makes the model follow it      *)
 (* (with FALSE TLC shows the stale payload as a CacheTransparent             *)
 (* counterexample).                                                          *)
+(*                                                                         *)
+(* The backing store may also change UNDER the long-lived service, written   *)
+(* by somebody else (an operator editing the file, another process):         *)
+(*   ExternalEdit  add / replace / remove one of the four candidate entries  *)
+(*                 c/{PHYSICS,ANY}/{r,any}/x directly in the store           *)
+(*   Resolve       ResolveComponentQuery(c/RT/role/x)                        *)
+(*   GetX          GetComponentConfiguration(c/RT/role/x)                    *)
+(* PROPERTY-level state: store (what the backing store holds NOW); "resolves  *)
+(* to the first EXISTING entry ..., fails when none exists, so a resolved     *)
+(* path always exists" is about NOW (ResolvedExistsNow, MostSpecificNow).     *)
+(* CODE-level state: tree, the file backend's in-memory copy                 *)
+(* (cfgbackend.YamlSource.data), re-read from the file by every accessor      *)
+(* (refresh() at the top of Exists / Get / GetRecursive / Put);               *)
+(* ExistsRefreshes = TRUE is the tree as it is (with FALSE TLC shows the      *)
+(* stale resolution as a counterexample).                                    *)
 (***************************************************************************)
 EXTENDS ConfigQuery
 
 CONSTANTS MaxSteps,            \* requests per behaviour
           VarIds, UpdIds,      \* which members of the catalogues VarCat / UpdCat are used
-          RequireInvalidate    \* Process is only asked for when no update is pending invalidation
+          RequireInvalidate,   \* Process is only asked for when no update is pending invalidation
+          ExistsRefreshes,     \* YamlSource.Exists re-reads the file before looking (TRUE: the tree as it is)
+          StoreInit, EditVals  \* initial values of the candidate entries ({0, 1}: the 16 patterns); values an external edit writes
 
 VARIABLES content,   \* [Entries -> parts]                                   (property level)
           compiled,  \* [Entries -> snapshot | NoSnap]: the template cache   (code level)
           dirty,     \* an entry was updated since the cache was last dropped
+          store,     \* [Keys -> 0 absent | 1 | 2 payload version]: the candidate entries c/RT/role/x NOW   (property level)
+          tree,      \* the same, as last read by the backend (YamlSource.data)                              (code level)
           req,       \* the last request
           out,       \* what the code-level service answered: [ok, out]
           n
 
-svars == <<content, compiled, dirty, req, out, n>>
+svars == <<content, compiled, dirty, store, tree, req, out, n>>
 
 (* two base paths; D2f is asked for but never exists *)
 Entries == {"D1e", "D1f", "D1s", "D2e", "D2s"}
 Askable == Entries \cup {"D2f"}
 DirOf(e) == IF e \in {"D1e", "D1f", "D1s"} THEN "D1" ELSE "D2"        \* D1 = c/PHYSICS/r, D2 = c/ANY/any
 SibOf(e) == IF DirOf(e) = "D1" THEN "D1s" ELSE "D2s"                  \* the entry `{% include "sib" %}` means there
+
+(* the four candidates of a lookup of entry x of component c; the same ids name the queries c/RT/role/x *)
+Keys == {"Pr", "Ar", "Pa", "Aa"}
+RtOf(k) == IF k \in {"Pr", "Pa"} THEN "PHYSICS" ELSE "ANY"
+RoleOf(k) == IF k \in {"Pr", "Ar"} THEN "r" ELSE "any"
+XQ(k) == [comp |-> "c", rt |-> RtOf(k), role |-> RoleOf(k), entry |-> "x"]
+Existing(st) == {<<RtOf(k), RoleOf(k)>> : k \in {j \in Keys : st[j] # 0}}     \* the B of ConfigQuery!Resolve
+PayloadX(k, ver) == (IF ver = 2 THEN "new:" ELSE "cfg:") \o PathStr(XQ(k))
+Resolution(r) == IF r = NotFound THEN RenderError ELSE Rendered(PathStr(r))
 
 P(k, x) == [k |-> k, x |-> x]
 IncPart == P("inc", SiblingName)
@@ -79,6 +107,7 @@ Nothing == Rendered("")
 
 Init == /\ content = InitContent
         /\ compiled = [e \in Entries |-> NoSnap]
+        /\ store \in [Keys -> StoreInit] /\ tree = store           \* NewService reads the file: any of the 16 patterns
         /\ dirty = FALSE /\ req = NoReq /\ out = Nothing /\ n = 0
 
 Fresh(c, e) == [parts |-> c[e], sib |-> c[SibOf(e)]]      \* compiling e now: its content and the included sibling's
@@ -87,45 +116,86 @@ Process(e, vs) ==
   /\ n < MaxSteps /\ (RequireInvalidate => ~dirty)
   /\ req' = [op |-> "Process", e |-> e, vars |-> vs, parts |-> <<>>]
   /\ IF e \notin Entries
-       THEN out' = RenderError /\ UNCHANGED compiled                  \* FromCache fails: nothing is cached
+       THEN /\ out' = RenderError /\ UNCHANGED compiled              \* FromCache fails: nothing is cached
+            /\ tree' = IF ExistsRefreshes THEN store ELSE tree        \* the loader asked Exists only
        ELSE LET snap == IF compiled[e] # NoSnap THEN compiled[e] ELSE Fresh(content, e)
             IN /\ out' = RenderWith(snap.parts, snap.sib, TRUE, vs, AutoEscape)      \* bindings built from THIS request's vs
                /\ compiled' = [compiled EXCEPT ![e] = snap]
-  /\ n' = n + 1 /\ UNCHANGED <<content, dirty>>
+               /\ tree' = IF compiled[e] # NoSnap THEN tree ELSE store               \* a cache hit does not touch the backend
+  /\ n' = n + 1 /\ UNCHANGED <<content, dirty, store>>
 
 Raw(e) ==
   /\ n < MaxSteps
   /\ req' = [op |-> "Raw", e |-> e, vars |-> <<>>, parts |-> <<>>]
   /\ out' = IF e \in Entries THEN Rendered(Source(content[e])) ELSE RenderError      \* src.Get: never cached
-  /\ n' = n + 1 /\ UNCHANGED <<content, compiled, dirty>>
+  /\ tree' = IF e \in Entries \/ ExistsRefreshes THEN store ELSE tree               \* Exists, then Get (which re-reads)
+  /\ n' = n + 1 /\ UNCHANGED <<content, compiled, dirty, store>>
 
 Invalidate ==
   /\ n < MaxSteps
   /\ req' = [op |-> "Invalidate", e |-> "", vars |-> <<>>, parts |-> <<>>]
   /\ compiled' = [e \in Entries |-> NoSnap] /\ dirty' = FALSE /\ out' = Nothing
-  /\ n' = n + 1 /\ UNCHANGED content
+  /\ n' = n + 1 /\ UNCHANGED <<content, store, tree>>
 
 Update(e, parts) ==
   /\ n < MaxSteps /\ e \in UpdEntries /\ content[e] # parts
   /\ req' = [op |-> "Update", e |-> e, vars |-> <<>>, parts |-> parts]
   /\ content' = [content EXCEPT ![e] = parts] /\ dirty' = TRUE /\ out' = Nothing     \* src.Put only: the cache is kept
-  /\ n' = n + 1 /\ UNCHANGED compiled
+  /\ tree' = store                                                                  \* Put re-reads, writes, flushes
+  /\ n' = n + 1 /\ UNCHANGED <<compiled, store>>
+
+(* ---- the store changing under the service ---- *)
+ExternalEdit(k, v) ==          \* somebody else writes the backing store; the service is not told
+  /\ n < MaxSteps /\ store[k] # v
+  /\ req' = [op |-> "ExternalEdit", e |-> k, vars |-> <<>>, parts |-> <<>>]
+  /\ store' = [store EXCEPT ![k] = v] /\ out' = Nothing
+  /\ n' = n + 1 /\ UNCHANGED <<content, compiled, dirty, tree>>
+
+Seen == IF ExistsRefreshes THEN store ELSE tree       \* what Exists looks at
+
+Resolve(k) ==                  \* serviceutil.go:resolveComponentQuery: up to four Exists, nothing else
+  /\ n < MaxSteps
+  /\ req' = [op |-> "Resolve", e |-> k, vars |-> <<>>, parts |-> <<>>]
+  /\ out' = Resolution(CodeResolve(XQ(k), Existing(Seen)))
+  /\ tree' = Seen
+  /\ n' = n + 1 /\ UNCHANGED <<content, compiled, dirty, store>>
+
+GetX(k) ==                     \* GetComponentConfiguration: queryToAbsPath (Exists), then src.Get (re-reads)
+  /\ n < MaxSteps
+  /\ req' = [op |-> "GetX", e |-> k, vars |-> <<>>, parts |-> <<>>]
+  /\ out' = IF Seen[k] # 0 /\ store[k] # 0 THEN Rendered(PayloadX(k, store[k])) ELSE RenderError
+  /\ tree' = IF Seen[k] # 0 THEN store ELSE Seen
+  /\ n' = n + 1 /\ UNCHANGED <<content, compiled, dirty, store>>
 
 Next == \/ \E e \in Askable, i \in VarIds : Process(e, VarCat[i])
         \/ \E e \in Askable : Raw(e)
         \/ Invalidate
         \/ \E e \in UpdEntries, i \in UpdIds : Update(e, UpdCat[i])
+        \/ \E k \in Keys, v \in EditVals : ExternalEdit(k, v)
+        \/ \E k \in Keys : Resolve(k) \/ GetX(k)
 
 Spec == Init /\ [][Next]_svars
 
 (* ---- the property: the answer is a function of THIS request and the CURRENT content ---- *)
-Expected(c, r, esc) ==
+Expected(c, st, r, esc) ==
   CASE r.op = "Process" -> IF r.e \in Entries THEN RenderWith(c[r.e], c[SibOf(r.e)], TRUE, r.vars, esc) ELSE RenderError
     [] r.op = "Raw"     -> IF r.e \in Entries THEN Rendered(Source(c[r.e])) ELSE RenderError
+    [] r.op = "Resolve" -> Resolution(SpecResolve(XQ(r.e), Existing(st)))               \* the documented order on the store NOW
+    [] r.op = "GetX"    -> IF st[r.e] # 0 THEN Rendered(PayloadX(r.e, st[r.e])) ELSE RenderError
     [] OTHER            -> Nothing
 
-CacheTransparent == out = Expected(content, req, AutoEscape)      \* whatever was asked before, whatever is cached
-RequestExact     == out = Expected(content, req, FALSE)           \* ... and with the values verbatim (RenderExact over time)
+CacheTransparent == out = Expected(content, store, req, AutoEscape)   \* whatever was asked before, whatever is cached
+RequestExact     == out = Expected(content, store, req, FALSE)        \* ... and with the values verbatim (RenderExact over time)
+
+\* the resolution clauses of the property, on the store as it is NOW
+Resolved == IF out.ok THEN [comp |-> "c", rt |-> RtOf(CHOOSE k \in Keys : PathStr(XQ(k)) = out.out),
+                             role |-> RoleOf(CHOOSE k \in Keys : PathStr(XQ(k)) = out.out), entry |-> "x"]
+            ELSE NotFound
+ResolvedExistsNow == req.op = "Resolve" => ResolvedExists(XQ(req.e), Existing(store), Resolved)
+MostSpecificNow   == req.op = "Resolve" => MostSpecific(XQ(req.e), Existing(store), Resolved)
+PayloadNow        == req.op = "GetX" => out = Expected(content, store, req, FALSE)
+
 TypeOK == /\ n \in 0..MaxSteps /\ dirty \in BOOLEAN /\ out.ok \in BOOLEAN
+          /\ store \in [Keys -> 0..2] /\ tree \in [Keys -> 0..2]
           /\ \A e \in Entries : compiled[e] = NoSnap \/ compiled[e].parts \in Range(UpdCat) \cup Range(InitContent)
 =============================================================================
